@@ -374,6 +374,18 @@ def run_case(case, ctx):
     ranges = {l.name: (float(ins[l.name][rows].min()), float(ins[l.name][rows].max())) for l in wl}
     degenerate = [l.name for l in wl if ranges[l.name] == (0.0, 0.0) or
                   (not np.any(l.get_weights()[0]) and not (l.use_bias and np.any(l.get_weights()[1])))]
+    def zero_channel(l):
+      # an output channel without any signal (all-zero weights, zero bias) makes the estimator take log2(0) just
+      # like an all-zero layer does
+      ws_ = l.get_weights()
+      k_ = np.asarray(ws_[0])
+      k_ = k_.reshape(k_.shape[0] * k_.shape[1], -1) if type(l).__name__ == "QDepthwiseConv2D" else k_.reshape(-1, k_.shape[-1])
+      b_ = np.asarray(ws_[1]).reshape(-1) if l.use_bias and len(ws_) > 1 else np.zeros(k_.shape[1])
+      if b_.shape[0] != k_.shape[1]:
+        return False
+      return bool(np.any(~np.any(k_ != 0, axis=0) & (b_ == 0)))
+    if not degenerate:
+      degenerate = [l.name for l in wl if zero_channel(l)]
     if degenerate:
       ctx.skip("estimator_not_evaluated_zero_signal_layer")
       ctx.observe("analyze_accumulator on a layer with an all-zero kernel or a (0,0) input range takes log2(0)", None)
